@@ -234,8 +234,10 @@ func checkC16(c C16Case, o *vcore.Obs) error {
 	conf := config.Config{StoragePollInterval: time.Millisecond, StorageRetryInterval: time.Millisecond,
 		MemoryDownloadedSnapshots: c.LimitDown, MemoryDecompressedSnapshots: c.LimitDecom}
 	insts := []string{"own"}
+	// (instance names in a prefix relation included: p1 / p10 / p1-b)
+	pool := []string{"p1", "p10", "p2", "p1-b", "p3", "p11", "p4"}
 	for i := 1; i < c.NInst; i++ {
-		insts = append(insts, fmt.Sprintf("p%d", i))
+		insts = append(insts, pool[(i-1)%len(pool)])
 	}
 	clock := time.Date(2026, 2, 1, 0, 0, 0, 0, time.UTC)
 	corrupt := map[string]bool{}
